@@ -40,6 +40,11 @@ class ParseUserData:
         else:
             if config.allow_plugins:
                 value = self.parseCustom()
+                # A parser with nothing to show may return JSON null or an
+                # empty string. Handle that like None below so the data is
+                # still dumped instead of being dropped.
+                if isinstance(value, str) and value.strip() in ('', 'null'):
+                    value = None
             else:
                 d = dict()
                 if self.data:
